@@ -254,6 +254,146 @@ class NPModel:
 NP = NPModel()
 
 
+class PathVal:
+    """pathlib.Path on an abstract file system: the set cm.FS of files a recording CodeGenerator has written (and not
+    yet removed).  Enough to follow 'write one file per set ... delete what matches a pattern' through a generator."""
+
+    def __init__(self, *parts):
+        segs = [p.s if isinstance(p, PathVal) else p if isinstance(p, str) else "<str>" for p in parts]
+        self.s = "/".join(x.rstrip("/") for x in segs if x) or "."
+
+    def __str__(self):
+        return self.s
+
+    def __repr__(self):
+        return "Path(%r)" % self.s
+
+    def __truediv__(self, o):
+        return PathVal(self, o)
+
+    def __fspath__(self):
+        return self.s
+
+    @property
+    def name(self):
+        return self.s.rsplit("/", 1)[-1]
+
+    @property
+    def suffix(self):
+        nm = self.name
+        return nm[nm.rfind("."):] if "." in nm else ""
+
+    @property
+    def stem(self):
+        nm = self.name
+        return nm[:nm.rfind(".")] if "." in nm else nm
+
+    @property
+    def parent(self):
+        return PathVal(self.s.rsplit("/", 1)[0] if "/" in self.s else ".")
+
+    def mkdir(self, *a, **k):
+        return None
+
+    def resolve(self, *a, **k):
+        return self
+
+    def absolute(self):
+        return self
+
+    def expanduser(self):
+        return self
+
+    def _listing(self, pattern, recursive=False):
+        import fnmatch
+        out = []
+        for f in sorted(cm.FS):
+            d, _, nm = f.rpartition("/")
+            if (d == self.s or (recursive and d.startswith(self.s + "/"))) and fnmatch.fnmatchcase(nm, pattern):
+                out.append(PathVal(f))
+        return out
+
+    def glob(self, pattern):
+        return self._listing(pattern)
+
+    def rglob(self, pattern):
+        return self._listing(pattern, True)
+
+    def iterdir(self):
+        return self._listing("*")
+
+    def unlink(self, *a, **k):
+        cm.FS.discard(self.s)
+        cm.FS_LOG.append(("unlink", self.s))
+
+    def exists(self):
+        return Stub("Path(%s).exists()" % self.s)
+
+    is_file = is_dir = exists
+
+    def stat(self):
+        return Stub("Path(%s).stat()" % self.s)
+
+
+def _pstr(x):
+    return x if isinstance(x, str) else x.s if isinstance(x, PathVal) else "<str>"
+
+
+class OsPathModel:
+    sep = "/"
+
+    @staticmethod
+    def join(*parts):
+        return PathVal(*parts).s
+
+    @staticmethod
+    def basename(x):
+        return PathVal(x).name
+
+    @staticmethod
+    def dirname(x):
+        return PathVal(x).parent.s
+
+    def __getattr__(self, k):
+        return Stub("os.path." + k)
+
+
+class OsModel:
+    sep = "/"
+    path = OsPathModel()
+
+    @staticmethod
+    def remove(x, *a, **k):
+        PathVal(x).unlink()
+
+    unlink = remove
+
+    @staticmethod
+    def listdir(x="."):
+        return [q.name for q in PathVal(x).iterdir()]
+
+    @staticmethod
+    def makedirs(*a, **k):
+        return None
+
+    mkdir = makedirs
+
+    @staticmethod
+    def fspath(x):
+        return _pstr(x)
+
+    def __getattr__(self, k):
+        return Stub("os." + k)
+
+
+class PathlibModel:
+    Path = PurePath = PosixPath = PathVal
+    os = OsModel()
+
+    def __getattr__(self, k):
+        return Stub("pathlib." + k)
+
+
 class MathModel:
     pi = cm.PI
 
@@ -333,6 +473,12 @@ class Interp:
                     env[nm] = NP if a.name == "numpy" else Stub(a.name)
                 elif top == "math":
                     env[nm] = MathModel()
+                elif a.name == "pathlib":
+                    env[nm] = PathlibModel()
+                elif a.name == "os":
+                    env[nm] = OsModel()
+                elif a.name == "os.path":
+                    env[nm] = OsModel() if not a.asname else OsPathModel()
                 else:
                     env[nm] = Stub(a.name)
             return
@@ -384,6 +530,12 @@ class Interp:
                 env[nm] = getattr(NP, a.name)
             elif mod == "fractions":
                 env[nm] = Fraction if a.name == "Fraction" else Stub(a.name)
+            elif mod == "pathlib":
+                env[nm] = getattr(PathlibModel(), a.name)
+            elif mod == "os":
+                env[nm] = getattr(OsModel(), a.name)
+            elif mod == "os.path":
+                env[nm] = getattr(OsPathModel(), a.name)
             else:
                 env[nm] = Stub(mod + "." + a.name)
 
@@ -1059,7 +1211,7 @@ class Interp:
                 nm = a.symname if a.key[1] is None else "%s_%d" % (a.symname, a.key[1])
                 return lambda: nm
             raise Unsupported("SX attribute .%s is not modelled" % k, n)
-        if isinstance(o, (cm.FunctionVal, cm.CodeGeneratorVal, cm.SeriesDict, cm.MatClass, NPModel, MathModel)) or o is CA or o is cm.SparsityNS:
+        if isinstance(o, (cm.FunctionVal, cm.CodeGeneratorVal, cm.SeriesDict, cm.MatClass, NPModel, MathModel, PathVal, PathlibModel, OsModel, OsPathModel)) or o is CA or o is cm.SparsityNS:
             try:
                 return getattr(o, k)
             except AttributeError:
@@ -1442,7 +1594,7 @@ def _len(x):
 
 
 def _str(x=""):
-    return x if isinstance(x, str) else "<str>"
+    return x if isinstance(x, str) else x.s if isinstance(x, PathVal) else "<str>"
 
 
 def _type(o):
